@@ -8,7 +8,9 @@
 //	 "toks": [{"s":spelling,"g":gap class,"sep":blank required,"nl":line break allowed before}, ...]  tokens of pt
 //	 "spans":[{"k":kind,"f":first,"l":last}, ...]   1-based token indexes of every node of pt, preorder
 //	 "walk": ["BinaryExpr","Ident","nil",...]       what ast.Walk must show the visitor for pt
-//	 "ok":   true}                       the model parser maps toks back to pt
+//	 "ok":   true,                       the model parser maps toks back to pt
+//	 "nodom": false}                     true: t is not a well-formed paren-free tree (composite literal directly
+//	                                     in a control clause); C22 skips it
 //
 // <tree> is the JSON tree shape {"k":kind,"a":attribute,"c":[children]} described at the top of
 // verifharness/syntree (harness/syntree/tree.go): k = Go type name of the ast node (or the pseudo kinds
@@ -47,6 +49,7 @@ type Case struct {
 	Spans []Span        `json:"spans"`
 	Walk  []string      `json:"walk"`
 	OK    bool          `json:"ok"`
+	NoDom bool          `json:"nodom"` // outside the domain of C22: a composite literal directly in a control clause
 }
 
 // Layout renders the tokens; returns the text and the [start,end) byte offsets of every token.
